@@ -82,3 +82,5 @@ Fixpoint ext_width_fuel (fuel : nat) (v : N) : nat :=
   | S f => if (v / 256) =? 0 then 1 else S (ext_width_fuel f (v / 256))
   end.
 Definition ext_width (v : N) : nat := ext_width_fuel 8 v.
+
+(* EXTRACT: lex le_bytes be_bytes of_le of_be ext_width store to_s64 of_s64 in_s64 *)
